@@ -15,7 +15,12 @@ def models(P):
         "unix_time": TInt(), "frame_name": TStr(),
         "interp_before": TSObj("FrameGroundTruth", nullable=True),    # ghost: set by interpolate_ground_truth_frames' contract
         "interp_after": TSObj("FrameGroundTruth", nullable=True),
+        "objects": TSList(TSObj("DynamicObject")), "transforms": TSObj("TransformDict"),
     }, repo_class=P.index.lookup(f"{DS}:FrameGroundTruth")))
+    # a frame's transform registry, seen through the one entry this code reads and writes: base_link -> map
+    P.model(ClassModel("TransformDict", {"ego2map": TSObj("HomogeneousMatrix")}, repo_class=P.index.lookup("common.transform:TransformDict")))
+    P.model(ClassModel("HomogeneousMatrix", {"matrix": TOpaque("ndarray"), "src": TEnum(P.index.lookup("common.schema:FrameID")), "dst": TEnum(P.index.lookup("common.schema:FrameID"))},
+                       repo_class=P.index.lookup("common.transform:HomogeneousMatrix")))
 
 
 FRAMES = "ground_truth_frames"
@@ -23,6 +28,63 @@ T_ = "unix_time"
 TOL = "threshold_min_time"
 n = f"len({FRAMES})"
 t = lambda k: f"{FRAMES}[{k}].unix_time"
+
+
+def frame_body_task(P, deepcopy_one_level):
+    """the body of interpolate_ground_truth_frames: which frames, lists and times it hands on, what it stamps, and that the two neighbour frames are only read.
+    Callees are cut at named results (what they compute is their own contract / assumed); deepcopy gives a new frame with a registry and an object list of its own"""
+    idx = P.index
+    TR, GEO_ = "common.transform", "common.geometry"
+    FR, DO, HM = TSObj("FrameGroundTruth"), TSObj("DynamicObject"), TSObj("HomogeneousMatrix")
+    import z3 as _z3
+
+    def _deep(interp, args, kwargs, node):
+        new = deepcopy_one_level(interp, args, kwargs, node)
+        o = args[0]
+        if o.kind == "sobj" and o.cname == "FrameGroundTruth":
+            # the copy owns its registry and its object list (their contents are copies too; both are overwritten / replaced below)
+            reg = deepcopy_one_level(interp, [interp.getattr(o, "transforms", node)], {}, node)
+            interp.setattr(new, "transforms", reg, node)
+            interp.setattr(new, "objects", interp.new_slist(DO, "copied_objects"), node)
+        return new
+
+    def install(it):
+        from pyvc.externals import _wrap
+        it.externals["copy.deepcopy"] = _wrap(it, "copy.deepcopy", _deep, "deepcopy(frame) is a new frame whose registry and object list are new objects too (equal contents)")
+    is_key = "isinstance(key, TransformKey) and key.src is FrameID.BASE_LINK and key.dst is FrameID.MAP"
+    cuts = {
+        idx.lookup(f"{TR}:TransformDict.__getitem__").fq: Contract(f"{TR}:TransformDict.__getitem__", params={}, returns=HM, requires=E("the_ego_pose_entry", is_key),
+                                                                  ensures=E("entry", "result is self.ego2map")),
+        idx.lookup(f"{TR}:TransformDict.__setitem__").fq: Contract(f"{TR}:TransformDict.__setitem__", params={}, requires=E("the_ego_pose_entry", is_key), assigns={"self.ego2map": "value"}),
+        idx.lookup(f"{GEO_}:interpolate_homogeneous_matrix").fq: Contract(f"{GEO_}:interpolate_homogeneous_matrix", params={},
+                                                                          returns=lambda it, cf: VOpaque("ndarray", it.ctx.fresh("interpolated_matrix", I), data={"kind": "mat4"}),
+                                                                          requires=E("the_two_poses_in_time_order_and_the_query_time",
+                                                                                     "t1 == uf_int('arg_t1', 0) and t2 == uf_int('arg_t2', 0) and t == uf_int('arg_t', 0)")),
+        idx.lookup(f"{TR}:HomogeneousMatrix.from_matrix").fq: Contract(f"{TR}:HomogeneousMatrix.from_matrix", params={}, returns=HM,
+                                                                       ensures=E("labelled", "result.src is src and result.dst is dst and is_new(result) and allocated(result)")),
+        idx.lookup(f"{DS}:convert_objects_to_global").fq: Contract(f"{DS}:convert_objects_to_global", params={}, returns=TSList(DO),
+                                                                   ensures=E("named", "uf_bool('global_poses_of', result, object_list, ego2map) and is_new(result) and allocated(result)")),
+        idx.lookup(f"{GEO_}:interpolate_object_list").fq: Contract(f"{GEO_}:interpolate_object_list", params={}, returns=TSList(DO),
+                                                                   ensures=E("named", "uf_bool('interpolated_objects', result, object_list1, object_list2, t1, t2, t) and is_new(result) and allocated(result)")),
+    }
+    untouched = lambda f: (f"{f}.unix_time == old({f}.unix_time) and {f}.objects is old({f}.objects) and {f}.transforms is old({f}.transforms) and "
+                           f"{f}.transforms.ego2map is old({f}.transforms.ego2map) and len({f}.objects) == old(len({f}.objects)) and "
+                           f"forall(k, 0, len({f}.objects), {f}.objects[k] is old({f}.objects[k]))")
+    P.verify(f"{DS}:interpolate_ground_truth_frames", name="interpolate_ground_truth_frames[body]",
+             contract=Contract(f"{DS}:interpolate_ground_truth_frames", cut=False, params={"before_frame": FR, "after_frame": FR, "unix_time": TInt()},
+                               locals={"before_frame_objects": TSList(DO), "after_frame_objects": TSList(DO), "object_list": TSList(DO)},
+                               requires=E("two_frames", "before_frame is not after_frame and before_frame.transforms is not after_frame.transforms and before_frame.objects is not after_frame.objects",
+                                          "the_times_handed_to_the_pose_interpolation", "uf_int('arg_t1', 0) == before_frame.unix_time and uf_int('arg_t2', 0) == after_frame.unix_time and uf_int('arg_t', 0) == unix_time"),
+                               ensures=E("stamped_with_query_time", "result.unix_time == unix_time",
+                                         "a_new_frame_with_a_registry_of_its_own", "is_new(result) and result is not before_frame and result is not after_frame and is_new(result.transforms) and "
+                                                                                   "is_new(result.transforms.ego2map) and result.transforms.ego2map.src is FrameID.BASE_LINK and result.transforms.ego2map.dst is FrameID.MAP",
+                                         "objects_interpolated_between_the_global_poses_of_the_two_frames_at_their_own_times",
+                                         "uf_bool('interpolated_objects', result.objects, local('before_frame_objects', None), local('after_frame_objects', None), before_frame.unix_time, after_frame.unix_time, unix_time) and "
+                                         "uf_bool('global_poses_of', local('before_frame_objects', None), old(before_frame.objects), old(before_frame.transforms.ego2map)) and "
+                                         "uf_bool('global_poses_of', local('after_frame_objects', None), old(after_frame.objects), old(after_frame.transforms.ego2map))",
+                                         "the_earlier_frame_is_only_read", untouched("before_frame"),
+                                         "the_later_frame_is_only_read", untouched("after_frame"))),
+             extra_contracts=cuts, setup=lambda interp, entry: install(interp))
 
 
 def build(P):
@@ -50,7 +112,7 @@ def build(P):
             "none_only_if_all_far", f"implies(result is None, forall(k, 0, {n}, abs({T_} - {t('k')}) > {TOL}))",
             "accepts_times_up_to_limit", f"{T_} <= 10**17",
         )))
-    # ------------------------------------------------------------------ interpolate_ground_truth_frames (cut here; see below)
+    # ------------------------------------------------------------------ interpolate_ground_truth_frames (cut here for its callers; its body is verified by frame_body_task below)
     P.contract(Contract(
         f"{DS}:interpolate_ground_truth_frames",
         params={"before_frame": FR, "after_frame": FR, T_: TInt()},
@@ -269,9 +331,13 @@ def build(P):
                                ensures=E("objects_present_in_both_neighbours_lie_on_the_segment_and_arc_at_the_proportional_time_others_of_the_first_are_kept", first_part("result", n1),
                                          "objects_present_in_the_second_neighbour_only_are_kept", second_part("result", n2)), **common),
              extra_contracts={idx.lookup(f"{GEO}:interpolate_object").fq: obj_cut})
-    P.uncover("interpolate_ground_truth_frames itself (ego-pose interpolation of a 4x4 matrix, convert_objects_to_global, deepcopy of the frame) is cut at an assumed contract "
-              "(stamped with the query time, built from the two given frames); its body is exercised by the bounded harness only. 2-D objects (interpolate_dynamic_object2d) are not covered")
-    P.assume("contract of interpolate_ground_truth_frames (result stamped with the query time and built from exactly the two frames passed) is assumed, not proved")
+    frame_body_task(P, _deepcopy)
+    P.uncover("inside interpolate_ground_truth_frames the callees are cut at named results: interpolate_homogeneous_matrix (ego pose), convert_objects_to_global (it stores the STRING 'map' in "
+              "frame_id fields typed as FrameID members - union typing not built), HomogeneousMatrix.from_matrix; what they compute is exercised by the bounded harness only. "
+              "2-D objects (interpolate_dynamic_object2d) are not covered")
+    P.assume("callers of interpolate_ground_truth_frames use its cut contract (stamped with the query time, a new frame, named as the interpolation of exactly the two frames passed); "
+             "the first two clauses are proved from its body (task interpolate_ground_truth_frames[body]: also which lists and times are handed on, and that both neighbour frames are only read), "
+             "the third is a name for the result; deepcopy(frame) is a new frame with a registry and an object list of its own (assumed)")
     P.assume("pyquaternion: Quaternion.slerp(q0, q1, a) is a function of its arguments with slerp(., ., 0) = q0 and slerp(., ., 1) = q1; that it follows the SHORTEST arc is "
              "pyquaternion's contract (not modelled); copy.deepcopy returns a new object with equal field values")
     P.assume("object ids are unique within each neighbour frame and not None (the property's quantifier domain); inside interpolate_object_list the per-object result is known by "
